@@ -49,16 +49,17 @@ pub fn dump_logs(args: &[String], seed: u64) -> i32 {
         .collect();
     let census_g: Vec<Census> = census[..corpus.g.len()].to_vec();
     let (kp, _) = kplus(&corpus);
-    let mut cover_bases: Vec<(&Entry, bool)> = corpus.k0.iter().map(|e| (e, true)).collect();
+    let kmax = if tier == Tier::Thorough { 3 } else { 2 };
+        let mut cover_bases: Vec<(&Entry, bool, usize)> = corpus.k0.iter().map(|e| (e, true, kmax)).collect();
     for (gi, e) in corpus.g.iter().enumerate() {
         if gi >= corpus.extra_from && tier != Tier::Thorough {
             continue;
         }
         if kp[gi] || census_g[gi].interesting() {
-            cover_bases.push((e, kp[gi]));
+            cover_bases.push((e, kp[gi], if gi >= corpus.extra_from { 2 } else { kmax }));
         }
     }
-    let cover_counts = CoverCounts::compute(&cover_bases, if tier == Tier::Thorough { 3 } else { 2 });
+    let cover_counts = CoverCounts::compute(&cover_bases);
     let specs = if prop == "C17" {
         planner.c17_stage_b(&corpus, &census_g, &kp, &cover_counts)
     } else {
